@@ -233,8 +233,8 @@ structure RecFacts (sups : List Supplier) (r : Rec) : Prop where
   d7 : dispatches 7 r.codes = true
   d8 : dispatches 8 r.refs = true
   more : ∀ l ∈ r.moreRefs, l ≠ trigger ∧ noTags l = true
-  isos : ∀ i ∈ r.isos, ',' ∉ i ∧ i ≠ []
-  codes : ∀ c ∈ r.codes, c ∈ sups.map (·.code)
+  isos : ∀ i ∈ r.isos, ',' ∉ i
+  isosNe : r.isos ≠ [[]]
   noNl : ∀ l ∈ recLines r, '\n' ∉ l
 
 theorem noNl_spec {s : Str} (h : noNl s = true) : '\n' ∉ s := by
@@ -246,25 +246,18 @@ theorem tag_noNl (n : Nat) (hn : n < 10) : '\n' ∉ tag n := by
 
 theorem recFacts {sups : List Supplier} {r : Rec} (h : wfRec sups r = true) : RecFacts sups r := by
   simp only [wfRec, Bool.and_eq_true, List.all_eq_true, Bool.not_eq_true', bne_iff_ne, ne_eq] at h
-  obtain ⟨⟨⟨⟨⟨⟨⟨⟨⟨⟨⟨⟨⟨⟨⟨⟨n1, hisos⟩, n3⟩, n4⟩, n5⟩, n6⟩, n7⟩, n8⟩, d2⟩, d3⟩, d4⟩, d5⟩, d6⟩, d7⟩, d8⟩, hmore⟩, hcodes⟩ := h
+  obtain ⟨⟨⟨⟨⟨⟨⟨⟨⟨⟨⟨⟨⟨⟨⟨⟨n1, hisos⟩, n3⟩, n4⟩, n5⟩, n6⟩, n7⟩, n8⟩, d2⟩, d3⟩, d4⟩, d5⟩, d6⟩, d7⟩, d8⟩, hmore⟩, hne⟩ := h
   have hisoNl : '\n' ∉ joinSep ',' r.isos := by
     intro hm
     rcases mem_joinSep_char hm with e | ⟨l, hl, hc⟩
     · exact absurd e (by decide)
-    · exact noNl_spec (hisos l hl).1.1 hc
+    · exact noNl_spec (hisos l hl).1 hc
   refine ⟨d2, d3, d4, d5, d6, d7, d8, fun l hl => ⟨(hmore l hl).2, (hmore l hl).1.2⟩, ?_, ?_, ?_⟩
-  · intro i hi
-    refine ⟨?_, ?_⟩
-    · intro hm
-      have := (hisos i hi).1.2
-      rw [List.contains_iff_mem.2 hm] at this
-      exact Bool.noConfusion this
-    · intro e
-      have := (hisos i hi).2
-      rw [e] at this
-      exact Bool.noConfusion this
-  · intro c hc
-    exact List.contains_iff_mem.1 (hcodes c hc)
+  · intro i hi hm
+    have := (hisos i hi).2
+    rw [List.contains_iff_mem.2 hm] at this
+    exact Bool.noConfusion this
+  · exact hne
   · intro l hl
     simp only [recLines, List.mem_append, List.mem_cons, List.not_mem_nil, or_false] at hl
     rcases hl with (rfl | rfl | rfl | rfl | rfl | rfl | rfl | rfl) | hl
@@ -400,17 +393,18 @@ theorem supLookup_table : ∀ (sups : List Supplier) (c : Char),
       simp only [supplierOf] at ih
       simp [supLookup, supplierOf, List.find?, h, hb, ih]
 
-theorem split_joinSep_isos {isos : List Str} (h : ∀ i ∈ isos, ',' ∉ i ∧ i ≠ []) :
+theorem split_joinSep_isos {isos : List Str} (h : ∀ i ∈ isos, ',' ∉ i) (h1 : isos ≠ [[]]) :
     (if joinSep ',' isos = [] then [] else split ',' (joinSep ',' isos)) = isos := by
   cases isos with
   | nil => simp [joinSep]
   | cons a r =>
     have hne : joinSep ',' (a :: r) ≠ [] := by
-      have ha := (h a (by simp)).2
       cases r with
-      | nil => simpa [joinSep] using ha
+      | nil =>
+        have ha : a ≠ [] := fun e => h1 (by rw [e])
+        simpa [joinSep] using ha
       | cons b t => simp [joinSep]
     rw [if_neg hne]
-    exact split_joinSep (sep := ',') (ls := a :: r) (by simp) (fun i hi => (h i hi).1)
+    exact split_joinSep (sep := ',') (ls := a :: r) (by simp) h
 
 end PolyVerif.Rebase
